@@ -163,5 +163,24 @@ EmitRefs == \A e \in RefGenerated : PrintT("REFCASE " \o ToJson([text |-> Text(e
 EmitEnums == PrintT("ENUMS " \o ToJson(EnumTable))
 
 Case(e) == [text |-> Text(e), val |-> Fold(e)]
+\* integers beyond the 53 bits a double holds exactly (Python's integers are unbounded).  Only operations whose value
+\* can be written down without arithmetic on the big number are modelled; the value is kept as its decimal text.
+BigLits == { [text |-> "9007199254740993", dec |-> "9007199254740993"],
+             [text |-> "0x20000000000001", dec |-> "9007199254740993"],
+             [text |-> "18446744073709551615", dec |-> "18446744073709551615"],
+             [text |-> "0xffffffffffffffff", dec |-> "18446744073709551615"],
+             [text |-> "123456789012345678901234567891", dec |-> "123456789012345678901234567891"] }
+BigInt(d) == [t |-> "int", dec |-> d]
+BigCases == UNION { { [text |-> b.text, val |-> BigInt(b.dec)],
+                      [text |-> "+" \o b.text, val |-> BigInt(b.dec)],
+                      [text |-> "-" \o b.text, val |-> BigInt("-" \o b.dec)],
+                      [text |-> "(" \o b.text \o ")", val |-> BigInt(b.dec)],
+                      [text |-> "int(" \o b.text \o ")", val |-> BigInt(b.dec)],
+                      [text |-> "int(-" \o b.text \o ")", val |-> BigInt("-" \o b.dec)],
+                      [text |-> "int(int(" \o b.text \o "))", val |-> BigInt(b.dec)],
+                      [text |-> "int('" \o b.dec \o "')", val |-> BigInt(b.dec)],
+                      [text |-> "int(str(" \o b.text \o "))", val |-> BigInt(b.dec)],
+                      [text |-> "str(" \o b.text \o ")", val |-> [t |-> "str", s |-> b.dec]] } : b \in BigLits }
+EmitBig == \A c \in BigCases : PrintT("CASE " \o ToJson(c))
 Emit == \A e \in Generated : PrintT("CASE " \o ToJson(Case(e)))
 =============================================================================
